@@ -31,6 +31,7 @@ ASSUMPTIONS.update({
     "AtomicFlag": "opaque stand-in for Arc<AtomicBool>", "TypeHintRest": "the fields of TypeHint other than `position` (not read by eval)", "StdoutStderrMode": "opaque stand-in", "Instant": "opaque stand-in",
     "va_load": "AtomicBool::load returns some bool (the flag is set by other threads: nondeterministic)",
     "va_store": "AtomicBool::store has no effect on the evaluator state",
+    "va_swap": "AtomicBool::swap returns some bool and has no effect on the evaluator state",
     "vu_is_multiple_of": "usize::is_multiple_of (no property used)",
     "eval_expr": "eval_expr (eval.rs:6412-7058 and everything it calls) is NOT verified: assumed to terminate, to keep at least one stack frame and the same number of frames, and to leave ticks, tick_limit and stack_limit unchanged; it may do anything else to env",
     "from_hint": "Type::from_hint returns some Result and does not touch env",
@@ -47,6 +48,36 @@ UNVERIFIED = {
             "native stack overflow in Value::display / drop on deeply nested values",
             "that playground-run / sandboxed-test set tick_limit (two assignments in sandboxed_playground.rs / test_runner.rs)"],
 }
+
+_POKE = 'import "__shell.gdn" as shell\n\nfun poke() { shell::run("sh", ["-c", "kill -SIG $PPID; sleep 0.3"]) }\n'
+INTERRUPT_PROGRAMS = [
+    {"what": "interrupt mid-program and on the last toplevel expression", "defs": _POKE,
+     "body": 'println("a")\npoke()\nprintln("b")\nshell::run("sh", ["-c", "kill -SIG $PPID; sleep 0.3; echo done"])\n', "resumes": 3},
+    {"what": "interrupt inside a loop in a function", "defs": _POKE + 'fun work(): Int {\n  let total = 0\n  let i = 0\n  while i < 4 {\n    if i == 2 { poke() }\n    total += i\n    i += 1\n  }\n  total\n}\n',
+     "body": 'println(string_repr(work()))\nwork() + 1\n', "resumes": 4},
+    {"what": "interrupt as the last expression of a callee", "defs": _POKE + 'fun last(): Int {\n  println("in")\n  poke()\n  7\n}\n',
+     "body": 'let x = last()\nprintln(string_repr(x))\nx * 2\n', "resumes": 3},
+    {"what": "interrupt inside nested calls and a for loop", "defs": _POKE + 'fun inner(n: Int): Int {\n  if n == 1 { poke() }\n  n * 10\n}\nfun outer(): List<Int> {\n  let out: List<Int> = []\n  for n in [0, 1, 2] {\n    out = out.append(inner(n))\n  }\n  out\n}\n',
+     "body": 'println(string_repr(outer()))\nstring_repr(outer())\n', "resumes": 4},
+    {"what": "only the final step is interrupted", "defs": _POKE,
+     "body": 'println("x")\npoke()\n', "resumes": 2},
+]
+SANDBOX_PROGRAMS = [
+    'println(string_repr("abc".split("")))\n', 'println("ab".replace("", "-"))\n', 'while True {}\n',
+    'fun f(): Int { f() }\nf()\n', 'let xs: List<Int> = []\nwhile True { xs = xs.append(1) }\n',
+    'fun g(n: Int): Int { if n == 0 { 0 } else { 1 + g(n - 1) } }\nprintln(string_repr(g(100000)))\n',
+    'let s = "a"\nwhile True { s = s ^ s }\n', 'fun h(xs: List<Int>): Int { h(xs.append(1)) }\nh([])\n',
+    'let i = 0\nwhile True { i += 1 [i].map(fun(x) { x + 1 }) }\n',
+    'println(string_repr([1, 2, 3].map(fun(x) { while True {} x })))\n',
+]
+WITNESSES = [
+    {"match": r"evalloop\.eval\.", "kind": "interrupt-session", "props": ["C08"], "input": INTERRUPT_PROGRAMS, "timeout": 60},
+] + [
+    # C25: a sandboxed run of a non-terminating program must end (limit error) well within the timeout
+    {"match": r"evalloop\.eval_with_tick_limit\.", "kind": "playground", "props": ["C25"], "input": prog, "timeout": 20,
+     "expect": {"py": "'' if ('limit' in out or 'error' in out) else 'no limit error reported: ' + out[-200:]"}}
+    for prog in SANDBOX_PROGRAMS
+]
 
 GLUE = """
 #[verifier::external_body] pub struct Value { _o: u8 }
@@ -72,6 +103,8 @@ impl Value {
 pub fn va_load(f: &AtomicFlag) -> (r: bool) { unimplemented!() }
 #[verifier::external_body]
 pub fn va_store(f: &AtomicFlag, v: bool) { unimplemented!() }
+#[verifier::external_body]
+pub fn va_swap(f: &AtomicFlag, v: bool) -> (r: bool) { unimplemented!() }
 #[verifier::external_body]
 pub fn vu_is_multiple_of(a: usize, b: usize) -> (r: bool) { unimplemented!() }
 """
@@ -133,6 +166,7 @@ pub open spec fn ticks_left(env: Env) -> nat {
 RULES = [
     rw.simple("R2", r"session\.interrupted\.load\(Ordering::SeqCst\)", "va_load(&session.interrupted)"),
     rw.simple("R2", r"session\.interrupted\.store\((\w+), Ordering::SeqCst\)", r"va_store(&session.interrupted, \1)"),
+    rw.simple("R2", r"session\.interrupted\.swap\((\w+), Ordering::SeqCst\)", r"va_swap(&session.interrupted, \1)"),
     rw.simple("R2", r"env\.ticks\.is_multiple_of\(([0-9_]+)\)", r"vu_is_multiple_of(env.ticks, \1)"),
     rw.simple("R10", r"env\.stop_at_expr_id\.as_ref\(\) == Some\(&outer_expr\.id\)", "vq_stop_at_is(&env.stop_at_expr_id, &outer_expr.id)"),
     rw.simple("R10", r"env\.stop_at_expr_id == env\.current_frame\(\)\.caller_expr_id", "vq_opt_id_eq(&env.stop_at_expr_id, &env.current_frame().caller_expr_id)"),
@@ -198,6 +232,12 @@ def build(tier):
     PROFILE_LOOP = dict(invariant=[("idx", "__i1 <= env.stack.0@.len()")], decreases="env.stack.0@.len() - __i1")
     u.add_fn(EV, "eval", rules=RULES, contract=Contract(
         requires=[("nonempty", "old(env).stack.0@.len() >= 1")],
+        # an interrupted / limited evaluation is resumed by calling eval again; eval's first statement
+        # returns Unit at once when only the toplevel frame is left and it has nothing to evaluate, so
+        # stopping in such a state would lose the result of the run
+        ensures=[("stop_leaves_a_pending_step",
+                  "(r matches Err(EvalError::Interrupted) || r matches Err(EvalError::ReachedTickLimit(_)) || r matches Err(EvalError::ReachedStackLimit(_)))"
+                  " ==> !(final(env).stack.0@.len() == 1 && top(*final(env)).exprs_to_eval@.len() == 0)")],
         attrs=["#[verifier::exec_allows_no_decreases_clause]"],
         hints=SITES,
         loops={1: dict(body_prelude=SNAP, invariant=[("nonempty", "env.stack.0@.len() >= 1")]),
